@@ -24,7 +24,7 @@ class Space:
     """
 
     def __init__(self, name, runner, cases, oracle="table", nontrivial=None, agree=None,
-                 rule="", batch=200, watchdog=None, describe=None, bound=None):
+                 rule="", batch=200, watchdog=None, describe=None, bound=None, differential=False):
         self.name = name
         self.runner = runner
         self.cases = cases
@@ -36,6 +36,9 @@ class Space:
         self.watchdog = watchdog
         self.describe = describe
         self.bound = bound
+        # differential: the runner computes its own expectation from an earlier phase of the same execution (state-dependent by
+        # design); a violation is confirmed when the re-execution disagrees with ITS expectation, not when the strings repeat
+        self.differential = differential
 
 
 class Result:
@@ -125,8 +128,9 @@ def run_spaces(prop, spaces, ledger, pool, triage=False, res=None, sample_every=
     return res
 
 
-def confirm_violations(res, pool):
+def confirm_violations(res, pool, spaces=()):
     """Re-execute every reported violation once more; it must reproduce identically."""
+    diff = {sp.name: sp for sp in spaces if getattr(sp, "differential", False)}
     by_runner = {}
     for v in res.violations:
         by_runner.setdefault(v["runner"], []).append(v)
@@ -135,6 +139,11 @@ def confirm_violations(res, pool):
         items = [(i, (v["payload"] if v["payload"] is not None else v["case_id"])) for i, v in enumerate(vs)]
         for idx, out in pool.run(runner, items, batch=5):
             obs = out.partition("\x00")[0] if "\x00" in out else out
+            sp = diff.get(vs[idx]["space"])
+            if sp is not None and "\x00" in out:
+                if sp.agree(out.partition("\x00")[2], obs, vs[idx]["case_id"]):
+                    flaky.append((vs[idx], obs))
+                continue
             if obs != vs[idx]["observed"]:
                 flaky.append((vs[idx], obs))
     return flaky
